@@ -278,7 +278,7 @@ func C04(args []string) error {
 			}
 			v.ParseOK = true
 			for {
-				m, err := c.Recv(slowBudget.Timeout())
+				m, err := recvPatient(c, slowBudget.Timeout())
 				if err != nil {
 					slowBudget.Spent()
 					v.ParseOK = false
